@@ -457,7 +457,7 @@ func replay(path string, extra string) int {
 	c.Env = append(os.Environ(), "XSIM_PROP="+rf.Property, "XSIM_REPLAY="+abs, "XSIM_SCRATCH="+cacheDir())
 	out, err := c.CombinedOutput()
 	for _, l := range strings.Split(string(out), "\n") {
-		if strings.HasPrefix(l, "REPLAY ") || strings.Contains(l, "replay") {
+		if strings.HasPrefix(l, "REPLAY ") || strings.HasPrefix(l, "LOG ") || strings.Contains(l, "replay") {
 			fmt.Println(l)
 		}
 	}
